@@ -236,18 +236,21 @@ impl ConcreteReadableShape for Multipatch {
     fn read_shape_content<T: Read>(source: &mut T, record_size: i32) -> Result<Self, Error> {
         let reader = MultiPartShapeReader::<PointZ, T>::new(source)?;
 
-        let record_size_with_m =
-            Self::size_of_record(reader.num_points, reader.num_parts, true) as i32;
+        let record_size =
+            usize::try_from(record_size).map_err(|_| Error::InvalidShapeRecordSize)?;
+        let record_size_with_m = Self::size_of_record(reader.num_points, reader.num_parts, true);
         let record_size_without_m =
-            Self::size_of_record(reader.num_points, reader.num_parts, false) as i32;
+            Self::size_of_record(reader.num_points, reader.num_parts, false);
 
         if (record_size != record_size_with_m) & (record_size != record_size_without_m) {
             Err(Error::InvalidShapeRecordSize)
         } else {
-            let mut patch_types = vec![PatchType::Ring; reader.num_parts as usize];
-            let mut patches = Vec::<Patch>::with_capacity(reader.num_parts as usize);
-            for i in 0..reader.num_parts {
-                patch_types[i as usize] = PatchType::read_from(reader.source)?;
+            // num_parts was checked by the MultiPartShapeReader
+            let num_parts = reader.num_parts as usize;
+            let mut patch_types = Vec::<PatchType>::with_capacity(num_parts);
+            let mut patches = Vec::<Patch>::with_capacity(num_parts);
+            for _ in 0..num_parts {
+                patch_types.push(PatchType::read_from(reader.source)?);
             }
             let (bbox, patches_points) = reader
                 .read_xy()
